@@ -226,7 +226,12 @@ def check_keep_vis(ctx, case, tab):
     ref.hidden, ref.vis_shown, ref.vis_auto_shown = False, True, True
     ref.visgroup_ids = set()
     ctx.count('keep_vis=False')
-    if U.export_text(ref, True) != U.export_text(cp, True):
+    variants = [U.export_text(ref, True)]
+    for sol in getattr(ref, 'solids', []):       # Entity.copy(keep_vis=False) may strip its brushes too (repo 25c2d1c)
+        sol.hidden, sol.vis_shown, sol.vis_auto_shown = False, True, True
+        sol.visgroup_ids = set()
+    variants.append(U.export_text(ref, True))
+    if U.export_text(cp, True) not in variants:
         ctx.witness('keepvis:export', f'{type(o).__name__}.copy(keep_vis=False): exported text differs from the original with its visibility reset', inp)
         return
     W = U.Walker(tab)
